@@ -4,6 +4,7 @@ package main
 // after the loop must show the pre-loop value of every shadowed name, and the v-else marker appears iff the loop produced nothing.
 
 import (
+	"reflect"
 	"fmt"
 	"regexp"
 	"strings"
@@ -282,6 +283,47 @@ func runC04(r *Run, replay *Case) {
 			r.Add(c)
 		}
 	}
+	// the loop variable shadows a root field that holds a RICHER value than the item: a path that the item does not have is absent inside the
+	// instance (the item, not the shadowed root value, is what the name means there) - in text, in a binding on the looped element, as the
+	// collection of a nested loop, in a condition
+	for _, root := range []string{"map", "struct", "struct-goname"} {
+		for _, items := range []struct {
+			name string
+			v    any
+		}{{"maps", []any{map[string]any{"name": "ann", "email": "ann@x", "tags": []any{"a"}}, map[string]any{"name": "bob"}, map[string]any{"name": "cid", "email": nil}}},
+			{"typed-maps", []map[string]string{{"name": "ann", "email": "ann@x"}, {"name": "bob"}}}, {"nil-pointers", []*c04User{{Name: "ann", Email: "ann@x"}, nil}}} {
+			vn := "user"
+			if root == "struct-goname" {
+				vn = "User"
+			}
+			tpl := `<ul><li v-for="` + vn + ` in users" :title="` + vn + `.email">[[{{ ` + vn + `.name }}|{{ ` + vn + `.email }}|<i v-for="t in ` + vn + `.tags">{{ t }},</i><u v-else>none</u>|<b v-if="` + vn + `.email">has</b><b v-else>no</b>]]</li></ul><p>[[after:{{ ` + vn + `.name }}|{{ ` + vn + `.email }}]]</p>`
+			rootUser := map[string]any{"name": "ROOT", "email": "root@x", "tags": []any{"r1", "r2"}}
+			var data any = map[string]any{"users": items.v, "user": rootUser}
+			if root != "map" {
+				data = c04ShadowRoot{Users: items.v, User: c04User{Name: "ROOT", Email: "root@x", Tags: []string{"r1", "r2"}}}
+			}
+			res := renderPage(map[string]string{"p.vuego": tpl}, "p.vuego", data)
+			pendingPages = append(pendingPages, pageCase("shadow-path", map[string]string{"p.vuego": tpl}, nil, "p.vuego", data, "form:shadow-path"))
+			c := &Case{Name: fmt.Sprintf("shadow-path root=%s items=%s", root, items.name), Input: map[string]any{"nest": true, "shadowpath": true, "root": root, "items": items.name, "tpl": tpl}, Impl: res.canon(), Oracle: &Verdict{OK: true}, Tags: []string{"form:shadow-path"}}
+			c.Key = c.Name
+			// nothing of the shadowed root value may appear inside the list; after the loop it is back
+			inside := res.Out
+			if i := strings.Index(inside, "</ul>"); i >= 0 {
+				inside = inside[:i]
+			}
+			switch {
+			case res.Err != "" || res.Panic != "":
+				c.Oracle = &Verdict{OK: false, Class: "shadow-path:render-failed:" + root, Detail: fmt.Sprintf("%+v; template %q", res, tpl)}
+			case strings.Contains(inside, "root@x") || strings.Contains(inside, "ROOT") || strings.Contains(inside, "r1,"):
+				c.Oracle = &Verdict{OK: false, Class: "shadow-path:root-value-inside-instance:" + root, Detail: fmt.Sprintf("the loop variable %s shadows the root's %s, yet a path on it shows the root's value inside an instance: %q; template %q", vn, vn, res.Out, tpl)}
+			case !strings.Contains(res.Out, "[[after:ROOT|root@x]]"):
+				c.Oracle = &Verdict{OK: false, Class: "shadow-path:root-value-not-restored:" + root, Detail: fmt.Sprintf("after the loop %s is not the root value again: %q", vn, res.Out)}
+			case !strings.Contains(inside, "[[ann|ann@x|") || strings.Count(inside, "<li") != reflect.ValueOf(items.v).Len():
+				c.Oracle = &Verdict{OK: false, Class: "shadow-path:item-values:" + root, Detail: fmt.Sprintf("instances do not show their items: %q", res.Out)}
+			}
+			r.Add(c)
+		}
+	}
 	// nested loops compose
 	for _, a := range colls[:8] {
 		for _, b := range colls[:8] {
@@ -308,4 +350,15 @@ func runC04(r *Run, replay *Case) {
 		}
 	}
 	r.Res.Exhaustive = true
+}
+
+type c04User struct {
+	Name  string   `json:"name"`
+	Email string   `json:"email"`
+	Tags  []string `json:"tags"`
+}
+
+type c04ShadowRoot struct {
+	Users any     `json:"users"`
+	User  c04User `json:"user"`
 }
